@@ -4,7 +4,7 @@
     signature check, hash functions) are instantiated by tables of values the harness obtained by calling
     the real functions. *)
 From IBC Require Import Lib.Bytes Lib.BytesFacts Lib.Dec Lib.CorrLib Core.Height
-  TmVerify.Util TmVerify.World TmVerify.Light.
+  TmVerify.Util TmVerify.World TmVerify.Light TmVerify.Writes.
 Local Open Scope N_scope.
 
 (** ---- equality tests on model values ---- *)
@@ -86,6 +86,8 @@ Inductive Case :=
 | StatusCase (c : Client) (now : Z) (st : Status)
 | MatchCase (a b : Client) (m : bool)
 | ValidateCase (c : Client) (r : Res)
+| RecWrites (c s : Client) (r : Res) (ws : list Write)
+| UpgWrites (h : Height) (ok : bool) (ws : list Write)
 | LightCase (lc : LCase).
 
 Definition check (c : Case) : bool :=
@@ -106,5 +108,8 @@ Definition check (c : Case) : bool :=
   | MatchCase a b m => bool_eqb (is_matching a b) m
   | ValidateCase c r =>
       res_eqb (match validate_client c with Some true => Ok | Some false => Err | None => Panic end) r
+  | RecWrites c s r ws =>
+      let '(r', ws') := check_substitute_writes c s in res_eqb r' r && list_eqb write_eqb ws' ws
+  | UpgWrites h ok ws => list_eqb write_eqb (if ok then upgrade_writes h else []) ws
   | LightCase lc => light_check lc
   end.
